@@ -29,6 +29,8 @@ TRUSTED = ["Coq 8.16.1 kernel, vm_compute for the correspondence evaluation",
            "Jacobian 1e-9 relative + 4e-16/s^3 absolute: arccos conditioning, measured 2e-4 at an angle of 6e-5 rad)",
            "NumPy, vg"]
 CASE_IMPORTS = [("PW.model", "M_rodrigues")]
+# true of the model by unfolding (branch / dispatch shape); their content is carried by the traced ties and the correspondence
+DEFINITIONAL = ["C10_cv2_dispatch", "C10_fwd_tiny_is_identity"]
 ASSUMPTIONS = ["theorems are about exact real arithmetic; binary64 rounding is covered only by the tolerance of the "
                "correspondence check on sampled inputs",
                "inputs that are not rotation matrices are outside the property",
@@ -281,13 +283,20 @@ def _s_of(P):
     return float(np.linalg.norm(w) * 0.5)
 
 
+BAND = 1e-6  # relative half-width of the undecidable band around s = 1e-5 (float and exact s agree to ~1e-11 relative)
+
+
+def _in_band(s):
+    return SMALL * (1 - BAND) < s < SMALL * (1 + BAND)
+
+
 def _threshold_safe(R):
     """the s < 1e-5 decision must not sit on rounding: keep s away from the threshold"""
     P = _proj(R)
     if P is None:
         return False
     s = _s_of(P)
-    return not (0.8 * SMALL < s < 1.25 * SMALL)
+    return not _in_band(s)
 
 
 def _overshoot_halfturn(rng):
@@ -529,7 +538,10 @@ def oracle(c, o):
             fd = np.array(o["fd"], dtype=float)
             if not np.all(np.isfinite(fd)):
                 return "forward matrix is not finite next to r (central differences)"
-            tolj = 1e-6 * max(1.0, theta) + (2e-15 / theta if theta >= EPS else 0.0) + 1e-9 / o["fd_h"] * 1e-3
+            # measured (20000 vectors, theta 1e-17 .. 2000): central differences differ from the code's Jacobian by at most
+            # 2.3e-10 * max(1, theta)^1.5 plus the code's own cancellation error 0.5 * min(theta, 1e-16/theta); allowed: 10 x
+            cancel = min(theta, 1e-16 / theta) if theta >= EPS else 0.0
+            tolj = 2.5e-9 * max(1.0, theta) ** 1.5 + 15 * cancel
             if float(np.abs(J - fd).max()) > tolj:
                 return "forward Jacobian differs from central differences by %.3g" % float(np.abs(J - fd).max())
         # vector -> matrix -> vector is the identity for |r| < pi
@@ -542,11 +554,11 @@ def oracle(c, o):
             return "round trip through the matrix gives a non-finite vector"
         if theta < math.pi - 1e-9:
             s = abs(math.sin(theta))
-            near = theta < 2e-5 or math.pi - theta < 2e-5 or s < 2 * SMALL
-            tol = 2.5e-5 if near else 1e-10 / s + 1e-10
+            near = s < SMALL * (1 + BAND)   # the snapping zones (and the undecidable band next to them)
+            tol = 2.5e-5 if near else 2e-14 / s + 1e-13  # measured <= 16 * (1e-16/s + 1e-16); 10 x
             err = float(np.abs(rb - r).max())
             # at a half-turn k and -k are the same rotation: only there may the sign flip
-            if math.pi - theta < 2e-5:
+            if near and theta > 1:
                 err = min(err, float(np.abs(rb + r).max()))
             if err > tol:
                 return "vector -> matrix -> vector is not the identity for |r| < pi (error %.3g)" % err
@@ -565,25 +577,30 @@ def oracle(c, o):
         return "returned vector is longer than pi (%.17g)" % t
     s = _s_of(np.array(o["P"]).reshape(3, 3))
     ang = math.acos(max(-1.0, min(1.0, (np.trace(Rin) - 1) / 2)))
-    near = s < 2 * SMALL
-    tol = 2.5e-5 if near else 1e-10 / s + 1e-10
+    near = s < SMALL * (1 + BAND)   # snapping zones: the property allows 2.5e-5; else rounding amplified by 1/sin (10 x measured)
+    tol = 2.5e-5 if near else 2e-14 / s + 1e-13  # measured <= 16 * (1e-16/s + 1e-16); 10 x
     err = float(np.abs(_mat(o["back"]) - Rin).max())
     if err > tol:
         return "returned vector does not map back to the matrix (error %.3g, angle %.17g)" % (err, ang)
     if c["jac"]:
         if o["jshape"] != [9, 3]:
             return "inverse Jacobian has shape %r" % (o["jshape"],)
-        Ji = np.array(o["jvals"]).reshape(9, 3)
+        Ji = np.array(o["jvals"], dtype=float).reshape(9, 3)
+        if not np.all(np.isfinite(Ji)):
+            return "inverse Jacobian is not finite"
         Jf = np.array(o["back_jac"]).reshape(3, 9)
-        comp = Jf @ Ji
-        tolc = 1e-6 / (s * s) if s > 0 else 1e-6
-        if s >= SMALL * 1.25 or (s < SMALL * 0.8 and ang < 1):
-            tolc = max(1e-8 / max(s, 1e-30) ** 2 * 1e-2, 1e-6) if s >= SMALL else 5e-5
-            if float(np.abs(comp - np.eye(3)).max()) > tolc:
-                return "inverse Jacobian composed with forward Jacobian is not the identity (error %.3g)" % float(np.abs(comp - np.eye(3)).max())
-        elif s < SMALL * 0.8:
-            if float(np.abs(comp - np.eye(3)).max()) > 1e-3:
-                return "HALFTURN-JAC inverse Jacobian composed with forward Jacobian is not the identity in the half-turn branch"
+        cerr = float(np.abs(Jf @ Ji - np.eye(3)).max())
+        if _in_band(s):
+            pass  # which branch the code takes is a rounding-level decision here; both are judged above by 2.5e-5
+        elif s >= SMALL:
+            # measured (4000 rotations, s 1e-5 .. 1): error <= 10.2 * (1e-16 / s^3 + 1e-15); allowed: 10 x
+            if cerr > 1e-14 / s ** 3 + 1e-13:
+                return "inverse Jacobian composed with forward Jacobian is not the identity (error %.3g, s %.3g)" % (cerr, s)
+        elif ang < 1:
+            if cerr > 1e-12:   # zero zone: the literal table times the generators is exactly I
+                return "inverse Jacobian composed with forward Jacobian is not the identity in the zero branch (error %.3g)" % cerr
+        elif cerr > 1e-3:
+            return "HALFTURN-JAC inverse Jacobian composed with forward Jacobian is not the identity in the half-turn branch"
     return None
 
 
